@@ -12,7 +12,7 @@ CONSTANTS
   Strict = FALSE
   Versions = {13}
   ShareSets = {}
-  MaxDepth = 5
+  MaxDepth = 6
   MaxBfq = 0
   MaxLfq = 0
   MaxInflight = 3
